@@ -923,9 +923,16 @@ func (e *enumerator) Every(upd func(key uint64, oldV *Container, exists bool) (n
 		if write {
 			if nv == nil {
 				e.t.Delete(i.k)
-			} else {
-				e.q.d[e.i].v = nv
+				// The deletion has moved the following items up (and may
+				// have rebalanced the tree), so stepping with next() would
+				// skip the item after the deleted one: continue at the
+				// first key behind it instead.
+				f, _ := e.t.Seek(i.k)
+				*e = *f
+				f.Close()
+				continue
 			}
+			e.q.d[e.i].v = nv
 		}
 		// Any error returned would be stashed in e.err, and would come up
 		// on the next call.
